@@ -21,8 +21,9 @@ InternalGrow(k) == k \in {"rust_owned", "fixed", "cpp_string"}
 TInit == /\ s = New("caller", 1) /\ accepted = <<>> /\ touchedMax = 0 /\ calls = 0 /\ l = 1
 
 TNew == /\ IsEvent("New")
-        /\ s' = New(Rec[l].kind, Rec[l].cap)
-        /\ accepted' = <<>> /\ touchedMax' = 0 /\ calls' = 0
+        /\ s' = IF Rec[l].kind = "cpp_string" THEN NewStr(Rec[l].cap) ELSE New(Rec[l].kind, Rec[l].cap)
+        /\ ("len" \in DOMAIN Rec[l] => Rec[l].len = s'.len)     \* a writer over a std::string starts AFTER the text already there
+        /\ accepted' = (IF Rec[l].kind = "cpp_string" THEN PreText(Rec[l].cap) ELSE <<>>) /\ touchedMax' = 0 /\ calls' = 0
 
 TWriteBegin == IsEvent("WriteBegin") /\ WriteBegin(Rec[l].chunk)
 
